@@ -46,10 +46,10 @@ func init() {
 				"distinct = decision-sequence hash; non-trivial = at least one pre-emption"
 			d.RequiredProbes = []string{"fan.kind.tcp", "fan.kind.udp", "fan.kind.ws", "fan.kind.wsp", "fan.kind.flv", "fan.kind.wsflv", "fan.kind.mcast", "fan.real-pusher", "fan.left-early", "fan.complete-run-checked", "fan.wsp-pause-resume"}
 		} else {
-			d.Rule = "same scenario, plus RTSP/TCP and HTTP-FLV clients that stop reading for good (2 KiB window: the server's delivery goroutine blocks in a write); the stream ends by {publisher disconnect, publisher TEARDOWN, replacement by a new publisher, DELETE /api/v1/streams, Unregist, server shutdown} while consumers are attached, attaching or leaving; " +
+			d.Rule = "same scenario, plus RTSP/TCP and HTTP-FLV clients that stop reading for good (2 KiB window: the server's delivery goroutine blocks in a write); the stream ends by {publisher disconnect, publisher connection reset inside a frame, publisher TEARDOWN, replacement by a new publisher, DELETE /api/v1/streams, Unregist, server shutdown} while consumers are attached, attaching or leaving; " +
 				"every attached client sees its connection closed by the server within 5 simulated seconds, the ended stream's consumer count is 0 (never negative at any sample), rtsp/flv/wsp active counters return to their start values, no UDP socket stays open, no session/delivery/conversion goroutine survives. " +
 				"distinct = decision-sequence hash; non-trivial = at least one pre-emption"
-			d.RequiredProbes = []string{"fan.end.disconnect", "fan.end.teardown", "fan.end.replace", "fan.end.delete", "fan.end.shutdown", "fan.end.unregist", "fan.attach-near-end", "fan.eof-checked", "fan.stalled-client-at-end", "fan.count-audited", "fan.left-after-replacement"}
+			d.RequiredProbes = []string{"fan.end.disconnect", "fan.end.teardown", "fan.end.replace", "fan.end.delete", "fan.end.shutdown", "fan.end.unregist", "fan.end.reset-mid-frame", "fan.attach-near-end", "fan.eof-checked", "fan.stalled-client-at-end", "fan.count-audited", "fan.left-after-replacement"}
 		}
 		Register(d)
 	}
@@ -143,12 +143,24 @@ func buildSvcFan(tier string, prop string) sim.Scenario {
 			cons = append(cons, c)
 			w.Probe("fan.kind." + c.kind)
 		}
-		endCauses := []string{"disconnect", "teardown", "replace", "delete", "shutdown"}
+		endCauses := []string{"disconnect", "teardown", "replace", "delete", "shutdown", "reset-mid-frame"}
 		if !realPusher {
 			endCauses = []string{"unregist", "replace", "delete", "shutdown"}
 		}
 		endCause := endCauses[tp.Choose(len(endCauses))]
 		w.Logf("fan real=%v pk=%d gap=%v cons=%d end=%s", realPusher, nPk, gap, nCons, endCause)
+		for _, c := range cons {
+			mode := "stays"
+			switch {
+			case c.leaveAfter > 0 && c.dataOnly:
+				mode = "data-channel-breaks"
+			case c.leaveAfter > 0:
+				mode = "leaves"
+			case c.stallAfter > 0:
+				mode = "stops-reading"
+			}
+			w.State(c.kind + "/" + mode + "/" + endCause)
+		}
 
 		// UDP datagrams by destination
 		var dmu sync.Mutex
@@ -278,17 +290,27 @@ func buildSvcFan(tier string, prop string) sim.Scenario {
 			now := time.Now()
 			for _, c := range cons {
 				definite, maybe := false, false
+				// a client that joined after the replacement is on the successor; around the very instant either is possible
+				ambiguous := false
+				if c.played && !replacedAt.IsZero() && !c.playedAt.Before(replacedAt) {
+					if c.playedAt.Sub(replacedAt) > 5*time.Millisecond {
+						continue
+					}
+					ambiguous = true
+				}
 				switch {
-				case c.played && !replacedAt.IsZero() && !c.playedAt.Before(replacedAt): // joined the successor, or either stream around the instant of the replacement
-					maybe = c.playedAt.Sub(replacedAt) <= 5*time.Millisecond && !c.left && !c.eof
-				case c.played && c.eof: // already closed by the server
-				case c.played && !c.left:
+				case !c.played:
+					maybe = !c.done
+				case c.eof: // already closed by the server
+				case !c.left:
 					definite = true
-				case c.played && c.left:
+				default:
+					// a departure the server can only notice on its next write may linger
 					// (a WSP session whose data channel broke is gone once the server has closed its control channel)
 					maybe = c.kind == "flv" || c.kind == "wsflv" || (c.dataOnly && !c.ctlClosed) || now.Sub(c.leftAt) < time.Millisecond
-				case !c.played && !c.done:
-					maybe = true
+				}
+				if ambiguous && definite {
+					definite, maybe = false, true
 				}
 				if c.kind == "mcast" {
 					if definite {
@@ -351,6 +373,10 @@ func buildSvcFan(tier string, prop string) sim.Scenario {
 		switch endCause {
 		case "disconnect":
 			pusher.c.Close()
+		case "reset-mid-frame": // the publisher's connection dies inside an interleaved frame
+			pusher.c.Write([]byte{'$', 0, 0x03, 0xe8, 0x80, 0x60, 0x00})
+			pusher.c.Reset()
+			w.Fault("publisher-reset-mid-frame")
 		case "teardown":
 			pusher.do("TEARDOWN", base, nil, "")
 		case "replace":
@@ -493,7 +519,7 @@ func buildSvcFan(tier string, prop string) sim.Scenario {
 						if c.dgStart > len(ds) {
 							c.dgStart = len(ds)
 						}
-						if c.dgEnd > 0 && c.dgEnd < len(ds) {
+						if c.left && c.dgEnd < len(ds) {
 							ds = ds[:c.dgEnd]
 						}
 						ds = ds[c.dgStart:]
@@ -607,6 +633,13 @@ func buildSvcFan(tier string, prop string) sim.Scenario {
 							}
 						}
 						msg := fmt.Sprintf("%s client %s (PLAY answered when %d packets had been published, left early=%v): published packet #%d of %d (channel %d, %d bytes) never arrived (%d packets received, %d missing, real pusher=%v, end by %s) although nothing was dropped for backlog%s", c.kind, c.name, c.after, c.left, i, len(pubs), pubs[i].p.Channel, len(pubs[i].p.Data), len(got), len(missing), realPusher, endCause, why)
+						if c.kind == "mcast" {
+							var idx []int
+							for _, g := range got {
+								idx = append(idx, idxByData[string(g.data)])
+							}
+							msg += fmt.Sprintf(" [group datagrams %d..%d of %d, received indices %v, ports %v]", c.dgStart, c.dgEnd, len(dgrams[c.ip]), idx, c.ports)
+						}
 						if class == "C01/tail-not-flushed" { // recorded finding: reported only if every other rule held in this run
 							if deferredClass == "" {
 								deferredClass, deferredMsg = class, msg
@@ -808,6 +841,10 @@ func fanConsume(w *sim.World, sw *svcWorld, c *fanConsumer, base string, pubN fu
 				c.dgEnd = groupLen(c.ip)
 			}
 			w.Probe("fan.left-early")
+			if c.cl.proto == "" && w.Tape.OneIn(3) { // the client's connection is reset instead of closed
+				w.Fault("client-connection-reset")
+				c.cl.c.Reset()
+			}
 			c.cl.close()
 			return
 		}
